@@ -659,6 +659,10 @@ static const void *get_setup_template(long ch,long srate,
           float high=map[j+1];
           float del=(req-low)/(high-low);
           *base_setting=j+del;
+          /* req<map[j+1], but float rounding can still carry j+del up
+             to j+1; the setting must stay inside interval j or the
+             caller indexes its tables one past the end */
+          if(*base_setting>=j+1)*base_setting=j+1-.001;
         }
 
         return(setup_list[i]);
